@@ -56,7 +56,7 @@ func (m *gasModel) Key() []byte { return nil }
 type gasOp struct {
 	kind   string // deposit direct fake withdraw cheque candAdd candRm setFee
 	amt    int64
-	data   string // nil rcv bad19 ignore
+	data   string // nil rcv bad19 ignore rcvMarked marker3
 	signer string // U S X AL (without Notary: the first stored Alphabet key) I1 I2 I3 (the other stored keys)
 }
 
@@ -98,6 +98,7 @@ func NewGasDriver(notary bool, n int) *GasDriver {
 	}
 	add(gasOp{kind: "deposit", amt: 7, data: "rcv", signer: "U"}, gasOp{kind: "deposit", amt: 7, data: "bad19", signer: "U"},
 		gasOp{kind: "deposit", amt: 7, data: "ignore", signer: "U"}, gasOp{kind: "deposit", amt: 7, data: "nil", signer: "S"},
+		gasOp{kind: "deposit", amt: 7, data: "rcvMarked", signer: "U"}, gasOp{kind: "deposit", amt: 7, data: "marker3", signer: "U"},
 		gasOp{kind: "direct", amt: 7, data: "nil", signer: "U"}, gasOp{kind: "direct", amt: 7, data: "ignore", signer: "U"},
 		gasOp{kind: "fake", amt: 7, data: "nil", signer: "U"})
 	for _, a := range []int64{-1, 0, 1, 9000, 9001} {
@@ -266,6 +267,12 @@ func (d *GasDriver) Step(x *Exec, n *Node, i int) StepResult {
 		rcv = d.s.Hash
 	case "bad19":
 		data = make([]byte, 19)
+	case "rcvMarked":
+		// an ordinary 20-byte receiver that happens to begin with the two bytes the contract's own fee payments carry
+		rcv = util.Uint160{0x57, 0x0b, 0x01}
+		data = rcv.BytesBE()
+	case "marker3":
+		data = []byte{0x57, 0x0b, 0x00} // begins like the fee marker, is neither it nor a receiver
 	case "ignore":
 		data = []byte{0x57, 0x0b}
 	}
@@ -293,7 +300,7 @@ func (d *GasDriver) Step(x *Exec, n *Node, i int) StepResult {
 			nm.gasU -= o.amt
 			nm.gasC += o.amt
 			expN = []Notif{{"GAS", "Transfer", []any{gx(from.BytesBE()), gx(h.BytesBE()), NI(o.amt)}}}
-		case o.amt <= 0 || o.amt > maxDeposit || o.data == "bad19":
+		case o.amt <= 0 || o.amt > maxDeposit || o.data == "bad19" || o.data == "marker3":
 			expHalt = false
 		default:
 			expRet = "i1"
